@@ -91,11 +91,19 @@ def run(ctx):
                 if l.startswith('{"k":"fuzz'): f.write(l); nfuzz += 1
         fzfiles.append(keep)
     ctx.tlc_traces("Trace_C14f", fzfiles)
-    ctx.traces = nhist; ctx.evaluations = nev + nfuzz
+    # 5. a fault at a particular point: in the 11 crystal scenarios of the fault stage (copies, lists, array creation, additions with room / at capacity /
+    #    without storage / to the built-in collection, file loads) every allocation request is refused in turn: rejected => collection as it was and usable
+    ctx.tlc_must_pass("MC_C04f", workers=2)
+    fout = os.path.join(ctx.scratch, "fault.ndjson")
+    rr = ctx.run_harness(exe, ["c04f", "crystal"], fout, env={"XRL_SCRATCH_DIR": ctx.scratch, "ASAN_OPTIONS": "detect_leaks=0:allocator_may_return_null=1", "UBSAN_OPTIONS": "print_stacktrace=1"}, timeout=600)
+    if rr.returncode != 0: extra.append({"prop": "C14", "why": "fault driver ended abnormally", "rc": rr.returncode, "stderr": (rr.stderr or "")[-800:]})
+    nfault = sum(1 for _ in open(fout))
+    ctx.tlc_traces("Trace_C04f", [fout], env={"XRL_PROP": "C14"})
+    ctx.traces = nhist; ctx.evaluations = nev + nfuzz + nfault
     ctx.states += 0
     return verdict(ctx, "model_checking", {
         "distinct_nontrivial": nhist,
-        "rule": "model: XrlCrystalArrays explored exhaustively (MC_C14.cfg: 2 user arrays + built-in, 3 names x 2 geometries, files of <= 2 entries with 6 kinds, 2 copy slots, <= 5 operations (6 in the thorough tier)): invariants Consistent, CopiesIndependent and the action properties; conformance: one program per transition of the MC_C14_emit graph (%d programs) replayed into the real library under ASan/UBSan, plus %d seeded random histories of length <= %d; every recorded step validated by TLC against Outcomes(st, op); plus damaged crystal files (one to three bytes deleted, duplicated or replaced) read into user arrays and the built-in collection under ASan, judged against Trace_C14f: refused => unchanged, accepted => old members kept, names strictly sorted, count and retrievability intact (result, listed names sorted, n_crystal, capacity, returned crystals, audits). non-trivial = histories validated." % (nprog, nh, maxlen),
-        "damaged_files": nfuzz, "model_states": mc_states, "model_transitions": mc_trans, "programs_from_model_edges": nprog, "random_histories": nh,
+        "rule": "model: XrlCrystalArrays explored exhaustively (MC_C14.cfg: 2 user arrays + built-in, 3 names x 2 geometries, files of <= 2 entries with 6 kinds, 2 copy slots, <= 5 operations (6 in the thorough tier)): invariants Consistent, CopiesIndependent and the action properties; conformance: one program per transition of the MC_C14_emit graph (%d programs) replayed into the real library under ASan/UBSan, plus %d seeded random histories of length <= %d; every recorded step validated by TLC against Outcomes(st, op); plus damaged crystal files (one to three bytes deleted, duplicated or replaced) read into user arrays and the built-in collection under ASan, judged against Trace_C14f: refused => unchanged, accepted => old members kept, names strictly sorted, count and retrievability intact (result, listed names sorted, n_crystal, capacity, returned crystals, audits). fault stage: every allocation request of 11 crystal scenarios refused in turn (XrlHeap!FaultWhy: the call returns, reports XRL_ERROR_MEMORY, the collection is as it was and the same addition then succeeds; design: MC_C04f). non-trivial = histories validated." % (nprog, nh, maxlen),
+        "fault_events": nfault, "damaged_files": nfuzz, "model_states": mc_states, "model_transitions": mc_trans, "programs_from_model_edges": nprog, "random_histories": nh,
     }, ["built-in capacity in replayed programs is set through the public field Crystal_arr.n_alloc (5% of the random histories fill the real 512 slots instead)",
         "generated crystal files use lines < 100 bytes (the reader's line buffer)", "ASan/UBSan/LSan reports end a history with an abort event"], extra_violations=extra)
